@@ -142,13 +142,15 @@ def run(rep, tier, rng):
     # ---- rejection of non-divisible dimensionalities ----------------------------------------------
     for d in range(1, 13 if quick else 33):
         for sub in range(1, d + 2):
-            with spa.Network():
-                try:
-                    spa.State(d, subdimensions=sub)
-                    acc = True
-                except ValidationError:
-                    acc = False
-            add(f"check_state_accepts {d} {sub} {c.b(acc)}", {"op": "state-accepts", "d": d, "sub": sub}, ("accepts", d, sub))
+            for mode in (True, False):
+                with spa.Network():
+                    try:
+                        spa.State(d, subdimensions=sub, represent_cc_identity=mode)
+                        acc = True
+                    except ValidationError:
+                        acc = False
+                add(f"check_state_accepts {d} {sub} {c.b(acc)}", {"op": "state-accepts", "d": d, "sub": sub, "represent_cc_identity": mode},
+                    ("accepts", d, sub, mode))
 
     verdicts = c.coq_eval("C16", "cases", IMPORTS, exprs, shard=400)
     structural = [m for ok, m in zip(verdicts, meta) if not ok]
